@@ -209,4 +209,146 @@ theorem verilog_lib_checker_sound (isLib : String → Bool) (row : String → Ce
     VModelLib isLib row tl ports stmts a (vEnvOf false tab) :=
   vModelLibB_sound isLib row a tab h
 
+/-! ## non-vacuity: NANGATE `AOI21_X1` feeding `INV_X1`
+
+`module top(a, b1, b2, y); input a, b1, b2; output y; wire n; AOI21_X1 u1(.A(a), .B1(b1), .B2(b2), .ZN(n)); INV_X1 u2(.I(n), .ZN(y));
+endmodule` — `nAoi` / `nInv` are the canonical dumps of the REAL implementation circuits `NANGATE.cells['AOI21_X1'][0]` (`ZN =
+AOI21(B1, B2, A)`) and `NANGATE.cells['INV_X1'][0]`, `exOrdN` their real topological orders, `exRowN` their rows of the generated C19
+tables (chunk 1 row 6, chunk 2 row 2), `exTLn` the pin table `TechLib.pin_index` / `pin_is_output`. -/
+section Example
+open KV.VerilogText
+
+def exTLn : TL := fun k p =>
+  if k == "AOI21_X1" then (if p == "A" then some (0, false) else if p == "B1" then some (1, false) else if p == "B2" then some (2, false)
+    else if p == "ZN" then some (0, true) else none)
+  else if k == "INV_X1" then (if p == "I" then some (0, false) else if p == "ZN" then some (0, true) else none)
+  else none
+
+def exLM : VModule := ⟨"top", ["a", "b1", "b2", "y"],
+  [.decl .input none ["a", "b1", "b2"], .decl .output none ["y"], .decl .wire none ["n"],
+   .inst "AOI21_X1" "u1" [.named "A" (some (.sig "a" none)), .named "B1" (some (.sig "b1" none)), .named "B2" (some (.sig "b2" none)),
+     .named "ZN" (some (.sig "n" none))],
+   .inst "INV_X1" "u2" [.named "I" (some (.sig "n" none)), .named "ZN" (some (.sig "y" none))]]⟩
+/-- the statement list the post-parse model receives -/
+def exLRs : List RStmt := (toRs exLM.stmts).getD []
+def exLS : List Stmt := exLRs.map transform
+
+def nAoi : NNet :=
+  { net := { nodes := #[⟨"__fork__", [], [some 3]⟩, ⟨"__fork__", [], [some 1]⟩, ⟨"__fork__", [], [some 2]⟩,
+                        ⟨"__fork__", [some 0], []⟩, ⟨"AOI21", [some 1, some 2, some 3], [some 0]⟩],
+             lines := #[⟨4, 0, 3, 0⟩, ⟨1, 0, 4, 0⟩, ⟨2, 0, 4, 1⟩, ⟨0, 0, 4, 2⟩], io := [0, 1, 2, 3] },
+    names := #["A", "B1", "B2", "ZN", "ZN"] }
+def nInv : NNet :=
+  { net := { nodes := #[⟨"__fork__", [], [some 1]⟩, ⟨"__fork__", [some 0], []⟩, ⟨"INV1", [some 1], [some 0]⟩],
+             lines := #[⟨2, 0, 1, 0⟩, ⟨0, 0, 2, 0⟩], io := [0, 1] },
+    names := #["I", "ZN", "ZN"] }
+def exLibN : Lib := [("AOI21_X1", nAoi), ("INV_X1", nInv)]
+def exRowN (k : String) : Cell := if k == "AOI21_X1" then Gen.techChunk1[6]'(by decide) else Gen.techChunk2[2]'(by decide)
+def exOrdN (k : String) : List Nat := if k == "AOI21_X1" then [0, 1, 2, 4, 3] else [0, 2, 1]
+/-- the parsed circuit with names (11 nodes: `u1`, fork `n`, `u2`, fork `y`, the three input cells with their forks, the output cell) -/
+def exNN : NNet := verilogNNet {} exTLn exLM.ports exLS
+/-- its resolution by the model of `resolve_tlib_cells` -/
+def exH : NNet := (resolveCells exLibN exNN).getD default
+def exOrder : List Nat := [4, 5, 6, 7, 8, 9, 0, 1, 2, 3, 10]
+
+example : printVerilog [exLM] =
+    "module top(a, b1, b2, y);\ninput a, b1, b2;\noutput y;\nwire n;\nAOI21_X1 u1(.A(a), .B1(b1), .B2(b2), .ZN(n));\nINV_X1 u2(.I(n), .ZN(y));\nendmodule\n" := by
+  decide +kernel
+example : (exRowN "AOI21_X1").tmpl = c!"AOI21_X{1,2,4}" ∧ (exRowN "AOI21_X1").inNames = [c!"A", c!"B1", c!"B2"] ∧
+    (exRowN "AOI21_X1").outNames = [c!"ZN"] ∧ (exRowN "INV_X1").inNames = [c!"I"] ∧ (exRowN "INV_X1").outNames = [c!"ZN"] := by
+  decide +kernel
+
+theorem exLM_valid : validModule exLM = true := by decide +kernel
+theorem exLM_rs : toRs exLM.stmts = some exLRs := by
+  have h : (toRs exLM.stmts).isSome = true := by decide +kernel
+  unfold exLRs
+  cases h' : toRs exLM.stmts with
+  | none => rw [h'] at h; cases h
+  | some rs => rfl
+theorem exLS_ok : verilogOKB {} exTLn exLM.ports exLS = true := by decide +kernel
+theorem exLib_clean : libCleanB exLibN exLS = true := by decide +kernel
+theorem exNN_wf : exNN.wf = true := by decide +kernel
+theorem exNN_rok : resolveOKB exLibN exNN.keys exNN = true := by decide +kernel
+theorem exH_eq : resolveCells exLibN exNN = some exH := by
+  have h : (resolveCells exLibN exNN).isSome = true := by decide +kernel
+  unfold exH
+  cases h' : resolveCells exLibN exNN with
+  | none => rw [h'] at h; cases h
+  | some r => rfl
+
+/-- the parsed and the resolved circuit: kinds, names, `s_nodes`; the three scheduling hypotheses for the resolved circuit -/
+example : exNN.kindNames = [("AOI21_X1", "u1"), ("__fork__", "n"), ("INV_X1", "u2"), ("__fork__", "y"), ("input", "a"), ("__fork__", "a"),
+      ("input", "b1"), ("__fork__", "b1"), ("input", "b2"), ("__fork__", "b2"), ("output", "y")] ∧
+    exH.kindNames = [("AOI21", "u1"), ("__fork__", "n"), ("INV1", "u2"), ("__fork__", "y"), ("input", "a"), ("__fork__", "a"),
+      ("input", "b1"), ("__fork__", "b1"), ("input", "b2"), ("__fork__", "b2"), ("output", "y")] ∧
+    (exH.net.node 0).ins = [some 6, some 7, some 5] ∧ exNN.net.sNodes = [4, 6, 8, 10] := by decide +kernel
+theorem exH_sn : exH.net.sNodes = (verilogNet {} exTLn exLM.ports exLS).sNodes := by decide +kernel
+theorem exH_sched : orderOKB exH.net exOrder = true ∧ forksOKB exH.net exOrder = true ∧
+    linesDrivenB Gen.kindPrefixes exH.net exOrder = true := by decide +kernel
+
+theorem exRow_mem (k : String) : exRowN k ∈ Tech.cells := by
+  unfold exRowN
+  split
+  · exact List.mem_flatten.mpr ⟨Gen.techChunk1, by rw [Tech.chunks_eq]; simp, List.getElem_mem _⟩
+  · exact List.mem_flatten.mpr ⟨Gen.techChunk2, by rw [Tech.chunks_eq]; simp, List.getElem_mem _⟩
+
+/-- the certificates of the two instance nodes (0 = `u1`, 2 = `u2`): every clause by kernel evaluation -/
+theorem exCert0 : InstCert exLibN exRowN exOrdN exNN 0 :=
+  ⟨nAoi, ⟨[0, 1, 2], [3], [0], some 4⟩, by decide +kernel, by decide +kernel, by decide +kernel, by decide +kernel,
+    by decide +kernel, by decide +kernel, by decide +kernel, by decide +kernel, exRow_mem _, by decide +kernel, by decide +kernel⟩
+theorem exCert2 : InstCert exLibN exRowN exOrdN exNN 2 :=
+  ⟨nInv, ⟨[0], [1], [0], some 2⟩, by decide +kernel, by decide +kernel, by decide +kernel, by decide +kernel,
+    by decide +kernel, by decide +kernel, by decide +kernel, by decide +kernel, exRow_mem _, by decide +kernel, by decide +kernel⟩
+
+theorem exCerts : ∀ c, c < exNN.net.nodes.size → (exLibN.find (exNN.net.node c).kind).isSome = true →
+    InstCert exLibN exRowN exOrdN exNN c := by
+  intro c hc hs
+  have h11 : c < 11 := by
+    have : exNN.net.nodes.size = 11 := by decide +kernel
+    omega
+  rcases (by omega : c = 0 ∨ c = 1 ∨ c = 2 ∨ c = 3 ∨ c = 4 ∨ c = 5 ∨ c = 6 ∨ c = 7 ∨ c = 8 ∨ c = 9 ∨ c = 10) with
+    rfl | rfl | rfl | rfl | rfl | rfl | rfl | rfl | rfl | rfl | rfl
+  · exact exCert0
+  · exact absurd hs (by decide +kernel)
+  · exact exCert2
+  · exact absurd hs (by decide +kernel)
+  · exact absurd hs (by decide +kernel)
+  · exact absurd hs (by decide +kernel)
+  · exact absurd hs (by decide +kernel)
+  · exact absurd hs (by decide +kernel)
+  · exact absurd hs (by decide +kernel)
+  · exact absurd hs (by decide +kernel)
+  · exact absurd hs (by decide +kernel)
+
+/-- the stimulus `a = 0, b1 = 1, b2 = 1` (interface positions 0, 1, 2; position 3 is the output port `y`) -/
+def exEnv : Nat → Bool := fun x => x == exH.net.idx.ppi + 1 || x == exH.net.idx.ppi + 2
+
+/-- the datasheet model of the module under that assignment, computed by the evaluator and accepted by the checker:
+`n = AOI21(a; b1, b2) = ¬(a ∨ b1 ∧ b2) = 0`, `y = ¬n = 1` -/
+theorem exModel : vEvalLib (libHas exLibN) exRowN exTLn exLM.ports exLS (fun p => exEnv (exH.net.idx.ppi + p)) =
+      [("a", false), ("b1", true), ("b2", true), ("n", false), ("y", true)] ∧
+    vModelLibB (libHas exLibN) exRowN exTLn exLM.ports exLS (fun p => exEnv (exH.net.idx.ppi + p))
+      [("a", false), ("b1", true), ("b2", true), ("n", false), ("y", true)] = true := by decide +kernel
+
+/-- **the theorem applied, from TEXT**: the `LogicSim` result of the resolved circuit on the line into the output port `y` (line 9 of
+the parsed circuit, carrying the signal `y`) is the value the datasheet model gives `y` -/
+example : exec semL2n ((genOps Gen.kindPrefixes exH.net exOrder false).map OpRow.toOp) exEnv 9 = true := by
+  have hnn : (circOfText {} exTLn (printVerilog [exLM])).map (fun C => C.toNNet C.ioVerilog) = some exNN :=
+    verilog_text_to_nnet {} exTLn exLM exLRs exLM_valid exLM_rs
+  obtain ⟨σ, _, huniq, hlines, _⟩ := verilog_library_text_end_to_end {} exTLn exLM exLRs exLM_valid exLM_rs exLS_ok exLibN exLib_clean
+    exNN exH hnn exNN_wf exNN_rok exH_eq exRowN exOrdN exCerts exH_sn exOrder exH_sched.1 exH_sched.2.1 exH_sched.2.2 exEnv
+    (by decide +kernel)
+  have hσ := huniq _ (verilog_lib_checker_sound _ _ _ _ _ _ _ exModel.2)
+  rw [hlines 9 (by decide +kernel), ← hσ]
+  decide +kernel
+
+/-- … and the same value by evaluating the program directly (independent of the theorem) -/
+example : exec semL2n ((genOps Gen.kindPrefixes exH.net exOrder false).map OpRow.toOp) exEnv 9 = true := by decide +kernel
+
+/-- the function of the module on all eight rows `(a, b1, b2)`: `y = a ∨ (b1 ∧ b2)` -/
+example : (List.range 8).map (fun r => lookupA (vEvalLib (libHas exLibN) exRowN exTLn exLM.ports exLS (fun p => (r >>> p) % 2 == 1)) "y") =
+    [some false, some true, some false, some true, some false, some true, some true, some true] := by decide +kernel
+
+end Example
+
 end KV.C11
